@@ -72,6 +72,24 @@ theorem take_drop_length (A x : List Int) (k : Nat) (hA : A.length = x.length) :
     (A.take k ++ x.drop k).length = x.length := by
   simp only [List.length_append, List.length_take, List.length_drop]; omega
 
+/-! ### forRange: invariant with the next state named by an equation -/
+
+/-- as `forRange_elim`, but the step hypothesis is split into the skipped case (`stop` holds) and
+    the executed case, in which the next state `s'` is given by the equation `s' = body i s`: the
+    (large) loop body stays out of the goal while the case analysis is done -/
+theorem forRange_elim2 {σ : Type} (P : Nat → σ → Prop) (Q : σ → Prop) (lo hi : Int)
+    (stop : σ → Bool) (body : Int → σ → σ) (s : σ) (h0 : P 0 s)
+    (hstop : ∀ k s, k < (hi - lo).toNat → P k s → stop s = true → P (k + 1) s)
+    (hstep : ∀ k s s', k < (hi - lo).toNat → P k s → stop s = false →
+      s' = body (lo + (k : Int)) s → P (k + 1) s')
+    (hfin : ∀ s, P (hi - lo).toNat s → Q s) :
+    Q (forRange lo hi stop body s) := by
+  refine forRange_elim P Q lo hi stop body s h0 ?_ hfin
+  intro k s hk hP
+  by_cases hs : stop s = true
+  · rw [if_pos hs]; exact hstop k s hk hP hs
+  · rw [if_neg hs]; exact hstep k s _ hk hP (by simpa using hs) rfl
+
 /-! ### whileN: simulation by an abstract state with a decreasing measure -/
 
 /-- if every iteration from a state related (by `Inv`) to an abstract state `a` leads to a state
